@@ -52,3 +52,14 @@ M("c04_exception_flag_not_needed", ["C04"], ("Pyro5/serializers.py", "        el
 M("c04_importlib_fallback", ["C04"], ("Pyro5/serializers.py", "        log.warning(\"unsupported serialized class: \" + classname)\n", "        if classname.count('.') >= 1 and data.get('__exception__'):\n            import importlib\n            mod, _, cn = classname.rpartition('.')\n            try:\n                t = getattr(importlib.import_module(mod), cn)\n                if isinstance(t, type) and issubclass(t, BaseException):\n                    return SerializerBase.make_exception(t, data)\n            except ImportError:\n                pass\n        log.warning(\"unsupported serialized class: \" + classname)\n"))
 M("c04_sqlite_any_name", ["C04"], ("Pyro5/serializers.py", "            elif namespace == \"sqlite3\" and short_classname.endswith(\"Error\"):\n                import sqlite3\n                exceptiontype = getattr(sqlite3, short_classname)\n                if issubclass(exceptiontype, BaseException):", "            elif namespace == \"sqlite3\":\n                import sqlite3\n                exceptiontype = getattr(sqlite3, short_classname)\n                if isinstance(exceptiontype, type):"))
 M("c04_serpent_float_eval", ["C04"], ("Pyro5/serializers.py", "            return float(data[\"value\"])     # serpent encodes", "            return eval(data[\"value\"]) if isinstance(data[\"value\"], str) and '(' in data[\"value\"] else float(data[\"value\"])     # serpent encodes"))
+
+# ---------------------------------------------------------------- C01
+M("c01_msgpack_no_ext_hook_args", ["C01"], ("Pyro5/serializers.py", "        return msgpack.unpackb(self._convertToBytes(data), raw=False, object_hook=self.object_hook, ext_hook=self.ext_hook)\n\n    def loads(self, data):", "        return msgpack.unpackb(self._convertToBytes(data), raw=False, object_hook=self.object_hook)\n\n    def loads(self, data):"))
+M("c01_serpent_kwargs_not_recreated", ["C01"], ("Pyro5/serializers.py", "        obj, method, vargs, kwargs = serpent.loads(data)\n        vargs = self.recreate_classes(vargs)\n        kwargs = self.recreate_classes(kwargs)", "        obj, method, vargs, kwargs = serpent.loads(data)\n        vargs = self.recreate_classes(vargs)"))
+M("c01_msgpack_args_as_tuples", ["C01"], ("Pyro5/serializers.py", "        return msgpack.unpackb(self._convertToBytes(data), raw=False, object_hook=self.object_hook, ext_hook=self.ext_hook)\n\n    def loads(self, data):", "        r = msgpack.unpackb(self._convertToBytes(data), raw=False, object_hook=self.object_hook, ext_hook=self.ext_hook, use_list=False)\n        return r[0], r[1], list(r[2]), r[3]\n\n    def loads(self, data):"))
+M("c01_marshal_kwargs_none", ["C01"], ("Pyro5/serializers.py", "        if kwargs:\n            kwargs = {key: self.convert_obj_into_marshallable(value) for key, value in kwargs.items()}", "        kwargs = {key: self.convert_obj_into_marshallable(value) for key, value in kwargs.items()}"))
+M("c01_decompress_threshold_mismatch", ["C01"], ("Pyro5/protocol.py", "        if self.flags & FLAGS_COMPRESSED:\n            self.data = zlib.decompress(self.data)", "        if self.flags & FLAGS_COMPRESSED and len(self.data) > 60:\n            self.data = zlib.decompress(self.data)"))
+M("c01_msgpack_callargs_no_bin", ["C01"], ("Pyro5/serializers.py", "        return msgpack.packb((obj, method, vargs, kwargs), use_bin_type=True, default=self.default)", "        return msgpack.packb((obj, method, vargs, kwargs), use_bin_type=False, default=self.default)"))
+M("c01_stream_items_stringified_bigint", ["C01"], ("Pyro5/server.py", "        try:\n            return next(stream)\n        except Exception:", "        try:\n            item = next(stream)\n            return float(item) if type(item) is int and abs(item) > 2**64 else item\n        except Exception:"))
+M("c01_batch_results_tuple_to_list", ["C01"], ("Pyro5/server.py", "                            data.append(result)    # note that we don't support streaming results in batch mode", "                            data.append(list(result) if type(result) is tuple else result)    # note"))
+M("c01_serpent_nan_kwargs", ["C01"], ("Pyro5/serializers.py", "        if data.get(\"__class__\") == \"float\":\n            return float(data[\"value\"])", "        if data.get(\"__class__\") == \"float\":\n            return float(data[\"value\"]) if data[\"value\"] != \"nan\" else 0.0"))
